@@ -1,25 +1,57 @@
 #!/usr/bin/env python3
-"""re-evaluate every kept seeded change against the current checks and update checks_firing / rules_firing in its meta.json"""
-import json, glob, os, subprocess, sys
+"""re-evaluate every kept seeded change against the current checks and update checks_firing / rules_firing in its
+meta.json.  Each change is applied to a scratch copy of /repo under /tmp (removed afterwards) and evaluated with
+MQ2_REPO pointing there, so /repo is never touched and several changes are evaluated at once.
+usage: refresh_seeded.py [--jobs N] [name ...]"""
+import json, glob, os, shutil, subprocess, sys, tempfile
+from concurrent.futures import ThreadPoolExecutor
+
+args = sys.argv[1:]
+jobs = 6
+if args and args[0] == '--jobs':
+    jobs = int(args[1]); args = args[2:]
+names = args or [d.rstrip('/').split('/')[-1] for d in sorted(glob.glob('/verif/seeded/*/'))]
+
+
+def one(iname):
+    i, name = iname
+    d = '/verif/seeded/%s' % name
+    base = tempfile.mkdtemp(prefix='mq2seed-')
+    try:
+        for f in ('Cargo.toml', 'Cargo.lock'):
+            shutil.copy('/repo/' + f, base)
+        for sub in ('src', 'tests', 'examples', 'benches'):
+            if os.path.isdir('/repo/' + sub):
+                shutil.copytree('/repo/' + sub, os.path.join(base, sub))
+        r = subprocess.run(['patch', '-p1', '-s', '--no-backup-if-mismatch', '-i', os.path.join(d, 'patch.diff')], cwd=base,
+                           capture_output=True, text=True)
+        if r.returncode != 0:
+            return name, None, 'does not apply'
+        env = dict(os.environ, MQ2_REPO=base, MQ2_TAG='seed%d' % (i % jobs))
+        r = subprocess.run(['/verif/check', 'ALL'], capture_output=True, text=True, env=env, cwd='/verif')
+        return name, r.stdout, None
+    finally:
+        shutil.rmtree(base, ignore_errors=True)
+
+
 bad = []
-for d in sorted(glob.glob('/verif/seeded/*/')):
-    name = d.rstrip('/').split('/')[-1]
-    mp = os.path.join(d, 'meta.json')
-    m = json.load(open(mp))
-    r = subprocess.run(['/verif/tools/try_mutant.sh', os.path.join(d, 'patch.diff')], capture_output=True, text=True)
-    out = r.stdout
-    if 'PATCH DOES NOT APPLY' in out:
-        bad.append((name, 'does not apply'))
-        continue
-    fired = [l for l in out.split('\n') if l.startswith('FIRED:')]
-    rl = [l for l in out.split('\n') if l.startswith('RULES:')]
-    m['checks_firing'] = fired[0].replace('FIRED:', '').split() if fired else []
-    m['rules_firing'] = rl[0].replace('RULES:', '').split() if rl else []
-    m['sample_reports'] = [l.strip()[:300] for l in out.split('\n') if 'violated:' in l][:4]
-    json.dump(m, open(mp, 'w'), indent=1)
-    own = m.get('property')
-    flag = '' if own in m['checks_firing'] else '   <-- OWN PROPERTY NOT FIRING'
-    if flag:
-        bad.append((name, 'own property silent'))
-    print('%-10s own=%s fired=%s rules=%s%s' % (name, own, ' '.join(m['checks_firing']), ' '.join(m['rules_firing']), flag))
+with ThreadPoolExecutor(max_workers=jobs) as ex:
+    for name, out, err in ex.map(one, list(enumerate(names))):
+        if err:
+            bad.append((name, err))
+            print('%-10s %s' % (name, err))
+            continue
+        mp = '/verif/seeded/%s/meta.json' % name
+        m = json.load(open(mp))
+        fired = [l for l in out.split('\n') if l.startswith('FIRED:')]
+        rl = [l for l in out.split('\n') if l.startswith('RULES:')]
+        m['checks_firing'] = fired[0].replace('FIRED:', '').split() if fired else []
+        m['rules_firing'] = rl[0].replace('RULES:', '').split() if rl else []
+        m['sample_reports'] = [l.strip()[:300] for l in out.split('\n') if 'violated:' in l][:4]
+        json.dump(m, open(mp, 'w'), indent=1)
+        own = m.get('property')
+        flag = '' if own in m['checks_firing'] else '   <-- OWN PROPERTY NOT FIRING'
+        if flag:
+            bad.append((name, 'own property silent'))
+        print('%-10s own=%s fired=%s rules=%s%s' % (name, own, ' '.join(m['checks_firing']), ' '.join(m['rules_firing']), flag), flush=True)
 print('PROBLEMS:', bad)
